@@ -6,6 +6,9 @@ once at import, and every call site is a single guarded statement.
 
 - ``emit(event)`` appends one JSON line to the file named by ACCELFORGE_VERIF_TRACE, with a
   per-process sequence number.
+- ``record(kind, payload)`` keeps in-process references to intermediate objects (compiled
+  tile-shape formulas, enumerated choices) in ``RECORDS`` when ACCELFORGE_VERIF_RECORD=1, for a
+  test that runs the mapper in the same process.
 - ``schedule_active()`` / ``scheduled(jobs, unordered)`` let a test impose the order in
   which the jobs given to ``accelforge.util.parallel.parallel`` are executed and the
   order in which their results arrive, either from a seed
@@ -40,6 +43,14 @@ def emit(event: dict) -> None:
     rec.update(event)
     with open(path, "a") as f:
         f.write(json.dumps(rec, default=str) + "\n")
+
+
+RECORDS: list = []
+
+
+def record(kind: str, payload: dict) -> None:
+    if _ENABLED and os.environ.get("ACCELFORGE_VERIF_RECORD") == "1":
+        RECORDS.append((kind, payload))
 
 
 def schedule_active() -> bool:
